@@ -515,7 +515,7 @@ pub fn s_rtcp_parse(run: &mut Run, hx: &str) -> (String, Fails) {
                         // compare only where the text is valid UTF-8 and the SDES types are the reference's
                         let want = refc::expect_ref_text(p);
                         if *t == want { run.count("rtcp_parse_agrees_with_ref"); }
-                        else if !lossy_involved(p) && !matches!(p, RtcpPacket::FullIntraRequest(_)) { f.push((format!("codec:{}:ref-disagree", kind(p)), format!("ref {t} vs {want}"))); }
+                        else if !lossy_involved(p) { f.push((format!("codec:{}:ref-disagree", kind(p)), format!("ref {t} vs {want}"))); }
                     } }
                 } else { run.count("rtcp_parse_ref_different_count"); }
             } else { run.count("rtcp_parse_ref_stricter"); }
@@ -873,6 +873,32 @@ pub fn run(args: &Args) {
             let mut h = RtpHeader::new(96, 1, 2, 3); h.extension = Some(RtpHeaderExtension::new(0x4321, vec![0x5A; words * 4]));
             emit(&mut run, format!("rtp_marshal {}", show_pkt(&RtpPacket { header: h, payload: Bytes::from_static(b"xy"), padding_len: 0 })), true);
             run.count("rtp_ext_length_field_boundary");
+        }
+    }
+    // TWCC feedback built and serialised by the reference implementation (run-length and status-vector chunks,
+    // small and large deltas, its own RTCP padding): the stack must read the same header fields and payload
+    {
+        use rtcp::transport_feedbacks::transport_layer_cc::*;
+        for _ in 0..300 * scale {
+            let n = rng.range(1, 12) as u16;
+            let mut chunks = vec![]; let mut deltas = vec![];
+            if rng.chance(1, 2) {
+                let sym = pk!(rng, [SymbolTypeTcc::PacketReceivedSmallDelta, SymbolTypeTcc::PacketReceivedLargeDelta, SymbolTypeTcc::PacketNotReceived]);
+                chunks.push(PacketStatusChunk::RunLengthChunk(RunLengthChunk { type_tcc: StatusChunkTypeTcc::RunLengthChunk, packet_status_symbol: sym, run_length: n }));
+                if sym != SymbolTypeTcc::PacketNotReceived { for k in 0..n { deltas.push(RecvDelta { type_tcc_packet: sym,
+                    delta: if sym == SymbolTypeTcc::PacketReceivedSmallDelta { 250 * (k as i64 % 200) } else { 250 * (300 + k as i64) * if k % 2 == 0 { 1 } else { -1 } } }); } }
+            } else {
+                let m = n.min(7);
+                let syms: Vec<SymbolTypeTcc> = (0..7).map(|k| if k < m && k % 2 == 0 { SymbolTypeTcc::PacketReceivedSmallDelta } else { SymbolTypeTcc::PacketNotReceived }).collect();
+                for sy in &syms { if *sy == SymbolTypeTcc::PacketReceivedSmallDelta { deltas.push(RecvDelta { type_tcc_packet: *sy, delta: 250 * rng.below(200) as i64 }); } }
+                chunks.push(PacketStatusChunk::StatusVectorChunk(StatusVectorChunk { type_tcc: StatusChunkTypeTcc::StatusVectorChunk, symbol_size: SymbolSizeTypeTcc::TwoBit, symbol_list: syms }));
+            }
+            let t = TransportLayerCc { sender_ssrc: gens::g32(&mut rng), media_ssrc: gens::g32(&mut rng), base_sequence_number: gens::g16(&mut rng),
+                packet_status_count: n, reference_time: (rng.next() as u32) & 0x00FF_FFFF, fb_pkt_count: gens::g8(&mut rng), packet_chunks: chunks, recv_deltas: deltas };
+            let v: Vec<Box<dyn rtcp::packet::Packet + Send + Sync>> = vec![Box::new(t)];
+            if let Some(rb) = refc::ref_marshal_rtcp(v) {
+                if refc::ref_parse_rtcp(&rb).is_ok() { emit(&mut run, format!("rtcp_parse_ref {}", hex(&rb)), true); run.count("rtcp_twcc_from_reference"); }
+            }
         }
     }
     // boundary NACK sets: every subset of a window straddling 65535 → 0
